@@ -14,6 +14,7 @@ import (
 	"context"
 	"errors"
 	"fmt"
+	"reflect"
 	"runtime"
 	"strings"
 	"sync"
@@ -70,26 +71,55 @@ var kindMarkers = []string{
 }
 
 type FanEv struct {
-	Timeout bool `json:"timeout,omitempty"` // the caller's context ends
-	I       int  `json:"i"`                 // provider released
-	OK      bool `json:"ok"`                // ... with an answer (else an error)
+	Timeout  bool `json:"timeout,omitempty"`  // the caller's context ends
+	Deadline bool `json:"deadline,omitempty"` // the strategy's own timeout passes (the caller's context lives on); first event of a call only
+	I        int  `json:"i"`                  // provider released
+	OK       bool `json:"ok"`                 // ... with an answer (else an error)
 }
 
 type FanInput struct {
 	Kind int `json:"kind"`
 	N    int `json:"n"`
-	// Honour[i]: provider i returns the context's error when the context ends before its release
-	// (its release event, with ok=false, then stands after the event that ended the collector).
+	// Honour[i]: provider i returns the context's error when its request context ends before its
+	// release.  A release event of such a provider that stands after the end of its context must
+	// have ok=false (it is skipped if the provider has already returned).  A provider that honours
+	// the context and has no release event at all is a node that never answers.
 	Honour []bool  `json:"honour"`
 	Evs    []FanEv `json:"evs"`
+	// Calls > 1: the script is run that many times, one call after the other, on the SAME service
+	// instance under the SAME caller context (ignored when the script ends the caller's context).
+	Calls int `json:"calls,omitempty"`
+	// EndCaller: after the last call the caller's context ends.
+	EndCaller bool `json:"end_caller,omitempty"`
+}
+
+// FanRow: at quiescence after an event.
+type FanRow struct {
+	Returned bool `json:"returned"` // the current call has come back
+	Inflight int  `json:"inflight"` // requests (of all calls so far) outstanding at providers that honour their context
 }
 
 type FanObs struct {
-	Returned     bool   `json:"returned"`
-	OK           bool   `json:"ok"`
-	Blocked      int    `json:"blocked"`
-	Problem      string `json:"problem,omitempty"`
-	Unrepeatable bool   `json:"unrepeatable,omitempty"`
+	Returned     bool     `json:"returned"` // every call came back
+	OK           bool     `json:"ok"`
+	Blocked      int      `json:"blocked"`
+	Alive        int      `json:"alive"` // goroutines of the function, or started by it, that exist at the end
+	Rows         []FanRow `json:"rows,omitempty"`
+	Problem      string   `json:"problem,omitempty"`
+	Unrepeatable bool     `json:"unrepeatable,omitempty"`
+}
+
+func (in *FanInput) effCalls() int {
+	c := in.Calls
+	if c < 1 {
+		c = 1
+	}
+	for _, ev := range in.Evs {
+		if ev.Timeout {
+			return 1
+		}
+	}
+	return c
 }
 
 // ---------------------------------------------------------------------------------------------
@@ -97,13 +127,28 @@ type FanObs struct {
 
 type fanAnswer struct{ ok bool }
 
-type fanProvider struct {
-	id      int
-	honour  bool
+// the provider's part in one call of the function under test
+type fanCall struct {
 	release chan fanAnswer
-	mu      sync.Mutex
 	entered bool
 	result  string // "", "ok", "err", "ctx"
+}
+
+type fanProvider struct {
+	id       int
+	honour   bool
+	mu       sync.Mutex
+	cur      *fanCall   // the call in progress
+	all      []*fanCall // every call so far (requests of earlier calls may still be outstanding)
+	inflight int        // requests that have entered and not returned, all calls
+}
+
+// arm prepares the provider for the next call of the function under test.
+func (p *fanProvider) arm() {
+	p.mu.Lock()
+	p.cur = &fanCall{release: make(chan fanAnswer, 1)}
+	p.all = append(p.all, p.cur)
+	p.mu.Unlock()
 }
 
 var errFan = errors.New("POST failed with status 400: scripted failure") // unblindProposal does not retry a 400
@@ -111,29 +156,37 @@ var errFan = errors.New("POST failed with status 400: scripted failure") // unbl
 //go:noinline
 func (p *fanProvider) wait(ctx context.Context) bool {
 	p.mu.Lock()
-	p.entered = true
+	c := p.cur
+	c.entered = true
+	p.inflight++
 	p.mu.Unlock()
 	var a fanAnswer
 	if p.honour {
 		select {
-		case a = <-p.release:
+		case a = <-c.release:
 		case <-ctx.Done():
-			p.setResult("ctx")
+			p.setResult(c, "ctx")
 			return false
 		}
 	} else {
-		a = <-p.release
+		a = <-c.release
 	}
 	if a.ok {
-		p.setResult("ok")
+		p.setResult(c, "ok")
 	} else {
-		p.setResult("err")
+		p.setResult(c, "err")
 	}
 	return a.ok
 }
 
-func (p *fanProvider) setResult(r string) { p.mu.Lock(); p.result = r; p.mu.Unlock() }
-func (p *fanProvider) getResult() string  { p.mu.Lock(); defer p.mu.Unlock(); return p.result }
+func (p *fanProvider) setResult(c *fanCall, r string) {
+	p.mu.Lock()
+	c.result = r
+	p.inflight--
+	p.mu.Unlock()
+}
+func (p *fanProvider) getResult() string { p.mu.Lock(); defer p.mu.Unlock(); return p.cur.result }
+func (p *fanProvider) getInflight() int  { p.mu.Lock(); defer p.mu.Unlock(); return p.inflight }
 
 func (p *fanProvider) AttestationData(ctx context.Context, opts *api.AttestationDataOpts) (*api.Response[*phase0.AttestationData], error) {
 	if !p.wait(ctx) {
@@ -227,9 +280,19 @@ type dumpCount struct {
 	inMock    int // parked in a provider mock or at the log barrier
 	blocked   int // parked on a channel send
 	transient int // anything else: still moving
+	others    int // parked goroutines inside the function or started by it that are not its provider goroutines
+}
+
+func (c dumpCount) total() int { return c.inMock + c.blocked + c.others }
+
+// chanWait: the goroutine is parked on a channel operation (nothing in the function under test
+// makes it move again by itself); any other state (running, runnable, a lock, a sleep) is passing.
+func chanWait(header string) bool {
+	return strings.Contains(header, "[chan receive") || strings.Contains(header, "[select") || strings.Contains(header, "[chan send")
 }
 
 func fanDump(marker string) (dumpCount, bool) {
+	broad := strings.TrimSuffix(marker, ".func1")
 	buf := make([]byte, 1<<20)
 	for {
 		n := runtime.Stack(buf, true)
@@ -254,6 +317,13 @@ func fanDump(marker string) (dumpCount, bool) {
 			continue
 		}
 		if !strings.Contains(body, marker) {
+			if strings.Contains(body, broad) {
+				if chanWait(header) {
+					c.others++
+				} else {
+					c.transient++
+				}
+			}
 			continue
 		}
 		switch {
@@ -265,6 +335,9 @@ func fanDump(marker string) (dumpCount, bool) {
 			}
 		case strings.Contains(header, "[chan send"):
 			c.blocked++
+		case chanWait(header):
+			// waiting on a channel that is not a provider's: e.g. a goroutine that waits for its context to end
+			c.others++
 		default:
 			c.transient++
 		}
@@ -307,6 +380,10 @@ func fanCollector(call func() error, res *error, done chan struct{}) {
 
 // ---------------------------------------------------------------------------------------------
 
+// fanDeadline is the strategies' timeout in scripts with a Deadline event (real time; such an
+// event is the first of its call, so nothing races with it); every other script runs under an hour.
+const fanDeadline = 15 * time.Millisecond
+
 func runFanOnce(in *FanInput) (obs FanObs) {
 	defer func() {
 		if r := recover(); r != nil {
@@ -317,19 +394,34 @@ func runFanOnce(in *FanInput) (obs FanObs) {
 		obs.Problem = "bad input"
 		return obs
 	}
+	hasDeadline := false
+	for k, ev := range in.Evs {
+		if ev.Deadline {
+			if in.Kind == kindUnblind || k != 0 {
+				obs.Problem = "bad input"
+				return obs
+			}
+			hasDeadline = true
+		}
+	}
 	marker := kindMarkers[in.Kind]
 	base, _ := fanDump(marker)
 
 	provs := make([]*fanProvider, in.N)
 	for i := range provs {
 		h := i < len(in.Honour) && in.Honour[i]
-		provs[i] = &fanProvider{id: i, honour: h, release: make(chan fanAnswer, 1)}
+		provs[i] = &fanProvider{id: i, honour: h}
+		provs[i].arm()
 	}
 	parent, cancel := context.WithCancel(context.Background())
 	defer cancel()
 	mon := nullmetrics.New()
 	T := time.Hour
-	bw := &barrierWriter{open: make(chan struct{})}
+	if hasDeadline {
+		T = fanDeadline
+	}
+	var bws []*barrierWriter
+	var bw *barrierWriter
 
 	var call func() error
 	name := func(i int) string { return fmt.Sprintf("p%d", i) }
@@ -431,25 +523,23 @@ func runFanOnce(in *FanInput) (obs FanObs) {
 		for i, p := range provs {
 			ps[i] = p
 		}
-		proposal := &api.VersionedSignedProposal{Version: spec.DataVersionDeneb, Blinded: true,
-			DenebBlinded: &apiv1deneb.SignedBlindedBeaconBlock{}}
 		call = func() error {
+			// (the function has no state of its own: the hook makes a service with a logger per call)
+			proposal := &api.VersionedSignedProposal{Version: spec.DataVersionDeneb, Blinded: true,
+				DenebBlinded: &apiv1deneb.SignedBlindedBeaconBlock{}}
 			return standardproposer.VerifC20UnblindProposal(parent, bw, zerolog.TraceLevel, proposal, ps)
 		}
 	}
 
-	var callErr error
-	done := make(chan struct{})
-	go fanCollector(call, &callErr, done)
-
-	// every provider goroutine is inside its mock
+	var done chan struct{}
+	// every provider goroutine of the current call is inside its mock
 	waitEntered := func() bool {
 		deadline := time.Now().Add(5 * time.Second)
 		for time.Now().Before(deadline) {
 			all := true
 			for _, p := range provs {
 				p.mu.Lock()
-				if !p.entered {
+				if !p.cur.entered {
 					all = false
 				}
 				p.mu.Unlock()
@@ -461,117 +551,197 @@ func runFanOnce(in *FanInput) (obs FanObs) {
 		}
 		return false
 	}
+	openBarrier := func(w *barrierWriter) {
+		w.mu.Lock()
+		select {
+		case <-w.open:
+		default:
+			close(w.open)
+		}
+		w.mu.Unlock()
+	}
 	cleanup := func() {
 		cancel()
 		for _, p := range provs {
+			p.mu.Lock()
+			for _, c := range p.all {
+				select {
+				case c.release <- fanAnswer{ok: false}:
+				default:
+				}
+			}
+			p.mu.Unlock()
+		}
+		for _, w := range bws {
+			openBarrier(w)
+		}
+		if done != nil {
 			select {
-			case p.release <- fanAnswer{ok: false}:
-			default:
+			case <-done:
+			case <-time.After(5 * time.Second):
 			}
 		}
-		bw.mu.Lock()
-		select {
-		case <-bw.open:
-		default:
-			close(bw.open)
+	}
+	inflight := func() int {
+		n := 0
+		for _, p := range provs {
+			if p.honour {
+				n += p.getInflight()
+			}
 		}
-		bw.mu.Unlock()
+		return n
+	}
+	isDone := func() bool {
 		select {
 		case <-done:
-		case <-time.After(5 * time.Second):
+			return true
+		default:
+			return false
 		}
 	}
-	if !waitEntered() {
-		obs.Problem = "providers were not all called"
-		cleanup()
-		return obs
-	}
-	if _, ok := fanSettle(marker, done); !ok {
-		obs.Problem = "did not settle at start"
-		cleanup()
-		return obs
-	}
+	row := func() { obs.Rows = append(obs.Rows, FanRow{Returned: isDone(), Inflight: inflight()}) }
 
-	released := make([]bool, in.N)
-	barrierOpened := false
-	openBarrier := func() {
-		if !barrierOpened {
-			barrierOpened = true
-			bw.mu.Lock()
-			close(bw.open)
-			bw.mu.Unlock()
-		}
-	}
-	for k, ev := range in.Evs {
-		if ev.Timeout {
-			if in.Kind == kindUnblind {
-				openBarrier() // answers that are in are delivered before the context ends
-				if _, ok := fanSettle(marker, done); !ok {
-					obs.Problem = "did not settle"
-					cleanup()
-					return obs
-				}
-			}
-			cancel()
-		} else {
-			if ev.I < 0 || ev.I >= in.N || released[ev.I] {
-				obs.Problem = "bad event"
-				cleanup()
-				return obs
-			}
-			released[ev.I] = true
-			p := provs[ev.I]
-			if r := p.getResult(); r == "ctx" {
-				if ev.OK {
-					obs.Problem = "inconsistent input: provider already returned the context's error"
-					cleanup()
-					return obs
-				}
-			} else {
-				p.release <- fanAnswer{ok: ev.OK}
+	calls := in.effCalls()
+	allReturned, allOK := true, true
+	for c := 0; c < calls; c++ {
+		if c > 0 {
+			for _, p := range provs {
+				p.arm()
 			}
 		}
-		_ = k
-		// (unblinding: all answers first; the barrier opens after the last event has settled)
-		if _, ok := fanSettle(marker, done); !ok {
-			obs.Problem = "did not settle"
+		bw = &barrierWriter{open: make(chan struct{})}
+		bws = append(bws, bw)
+		var callErr error
+		done = make(chan struct{})
+		go fanCollector(call, &callErr, done)
+
+		if !waitEntered() {
+			obs.Problem = "providers were not all called"
 			cleanup()
 			return obs
 		}
+		if _, ok := fanSettle(marker, done); !ok {
+			obs.Problem = "did not settle at start"
+			cleanup()
+			return obs
+		}
+
+		released := make([]bool, in.N)
+		for _, ev := range in.Evs {
+			switch {
+			case ev.Deadline:
+				// the strategy's own timeout: nothing to do but wait for it
+				select {
+				case <-done:
+				case <-time.After(5 * time.Second):
+					obs.Problem = "the deadline did not end the call"
+					cleanup()
+					return obs
+				}
+			case ev.Timeout:
+				if in.Kind == kindUnblind {
+					openBarrier(bw) // answers that are in are delivered before the context ends
+					if _, ok := fanSettle(marker, done); !ok {
+						obs.Problem = "did not settle"
+						cleanup()
+						return obs
+					}
+				}
+				cancel()
+			default:
+				if ev.I < 0 || ev.I >= in.N || released[ev.I] {
+					obs.Problem = "bad event"
+					cleanup()
+					return obs
+				}
+				released[ev.I] = true
+				p := provs[ev.I]
+				if r := p.getResult(); r == "ctx" {
+					if ev.OK {
+						obs.Problem = "inconsistent input: provider already returned the context's error"
+						cleanup()
+						return obs
+					}
+				} else {
+					p.mu.Lock()
+					ch := p.cur.release
+					p.mu.Unlock()
+					ch <- fanAnswer{ok: ev.OK}
+				}
+			}
+			// (unblinding: all answers first; the barrier opens after the last event has settled)
+			if _, ok := fanSettle(marker, done); !ok {
+				obs.Problem = "did not settle"
+				cleanup()
+				return obs
+			}
+			row()
+		}
+		openBarrier(bw)
+		if _, ok := fanSettle(marker, done); !ok {
+			obs.Problem = "did not settle at the end"
+			cleanup()
+			return obs
+		}
+		if !isDone() {
+			allReturned = false
+			allOK = false
+			break // a call that has not come back is not followed by another one
+		}
+		if callErr != nil {
+			allOK = false
+		}
 	}
-	openBarrier()
+	if in.EndCaller {
+		cancel()
+		if _, ok := fanSettle(marker, done); !ok {
+			obs.Problem = "did not settle after the caller's context ended"
+			cleanup()
+			return obs
+		}
+		row()
+	}
 	c, ok := fanSettle(marker, done)
 	if !ok {
 		obs.Problem = "did not settle at the end"
 		cleanup()
 		return obs
 	}
-	select {
-	case <-done:
-		obs.Returned = true
-		obs.OK = callErr == nil
-	default:
-	}
+	obs.Returned = allReturned
+	obs.OK = allOK
 	obs.Blocked = c.blocked - base.blocked
+	obs.Alive = c.total() - base.total()
 	cleanup()
 	return obs
 }
 
-// runFan applies the re-run policy: an observation that shows a leak or a call that did not come
-// back is repeated twice more and reported only if all three runs agree.
+func fanClean(o *FanObs) bool {
+	if o.Problem != "" || !o.Returned || o.Blocked != 0 || o.Alive != 0 {
+		return false
+	}
+	for _, r := range o.Rows {
+		if r.Inflight != 0 {
+			return false
+		}
+	}
+	return true
+}
+
+// runFan applies the re-run policy: an observation that shows a leak, a request left in flight or a
+// call that did not come back is repeated twice more and reported only if all three runs agree.
 func runFan(in *FanInput) FanObs {
 	o := runFanOnce(in)
-	if o.Problem == "" && o.Returned && o.Blocked == 0 {
+	if fanClean(&o) {
 		return o
 	}
 	o2 := runFanOnce(in)
 	o3 := runFanOnce(in)
-	if o == o2 && o2 == o3 {
+	if reflect.DeepEqual(o, o2) && reflect.DeepEqual(o2, o3) {
 		return o
 	}
 	// not repeatable: report a clean run if there was one, and say so
 	for _, x := range []FanObs{o, o2, o3} {
-		if x.Problem == "" && x.Returned && x.Blocked == 0 {
+		if fanClean(&x) {
 			x.Unrepeatable = true
 			return x
 		}
